@@ -480,7 +480,33 @@ class Builtins(object):
         return None
 
     def x_functools_reduce(self, it, args, kwargs):
+        # reduce(operator.mul, data): the product of the data as an uninterpreted function of the sequence (like sum / statistics.*);
+        # TypeError on no data
+        fn = args[0]
+        if len(args) == 2 and not kwargs and isinstance(fn, ExtRef) and fn.dotted == 'operator.mul':
+            seq = args[1]
+            if isinstance(seq, (list, tuple)):
+                try:
+                    seq = mk_list(ACC[LIST][0](to_val(seq)))
+                except Unliftable as u:
+                    raise OutOfReach(str(u))
+            if not isinstance(seq, Sym) or it.ctx.narrow(seq) != LIST:
+                raise OutOfReach('reduce over %r' % (seq,))
+            ek = self.world.elem_kinds(seq)
+            if not ek <= NUMERIC:
+                raise OutOfReach('product over a sequence that may hold non-numbers')
+            it.ctx.flags.add('ext:reduce(operator.mul)')
+            s = seq.pay(LIST)
+            if it.ctx.branch(z3.Length(s) == 0):
+                raise PyRaise('TypeError', ExcInst('TypeError'))
+            f = z3.Function('stat_product', SeqVal, Val)
+            it.ctx.axiom(z3.Or(REC[INT](f(s)), REC[FLOAT](f(s))))
+            return Sym(f(s), (INT, FLOAT))
         raise OutOfReach('functools.reduce')
+
+    def x_statistics_product(self, it, args, kwargs):
+        # spec side: stat('product', data)
+        return self.x_functools_reduce(it, [ExtRef('operator.mul'), args[0]], {})
 
     def e_timedelta(self, it, args, kwargs):
         if args:
@@ -500,9 +526,15 @@ class Builtins(object):
             if name == 'total_seconds':
                 us = base.us if isinstance(base, TDelta) else z3.RealVal(int(base.total_seconds() * 10**6))
                 return Builtin('total_seconds', lambda it2, a, k: mk_float(us / 10**6))
+            if isinstance(base, datetime.timedelta) and name in ('days', 'seconds', 'microseconds'):
+                return getattr(base, name)
             raise OutOfReach('timedelta.%s' % name)
         if isinstance(base, ExcInst):
             raise OutOfReach('attribute %s of exception' % name)
+        if name == 'args' and (isinstance(base, Err) or (isinstance(base, Sym) and ERR in base.kinds)):
+            # an error value is an exception instance built from its message: args == (message,)
+            if isinstance(base, Err) or it.ctx.narrow(base) == ERR:
+                return (self.b_str(it, [base], {}),)
         if isinstance(base, dict):
             if name == 'get':
                 def dget(it2, a, k, _d=base):
@@ -734,8 +766,10 @@ class Builtins(object):
                 a = v.args[0]
                 if isinstance(a, str):
                     return a
-            t = ctx.fresh(z3.StringSort(), 'excmsg')
-            return mk_str(t)
+            # the same exception object has one text, however often it is asked for
+            if getattr(v, 'text', None) is None:
+                v.text = mk_str(ctx.fresh(z3.StringSort(), 'excmsg'))
+            return v.text
         if isinstance(v, Sym):
             k = ctx.narrow(v)
             if k == STR:
